@@ -881,6 +881,9 @@ func (s *ClientScenario) checkClient(run *clientRun, ex *vs.Exec) (violation, ou
 		case ret.Err == "" && ret.Resp < 0:
 			return fail("R4-nil-nil", fmt.Sprintf("call %d returned a nil response with a nil error", ci))
 		case ret.Err == "noresp":
+			if has("R") && len(cv.tx) == 0 && s.Tries != 0 && len(s.FailWrites) == 0 && (closeCall == nil || closeCall.Seq > ret.Seq) {
+				return fail("R0-not-transmitted", fmt.Sprintf("call %d failed with no-response without a single transmission on the client's connection", ci))
+			}
 			if has("R") && firstMustEv != nil {
 				return fail("R3-lost", fmt.Sprintf("call %d failed with no-response although acceptable datagram %d arrived (t=%d) while it was waiting", ci, firstMust, firstMustEv.T))
 			}
